@@ -8,6 +8,8 @@ sessions.  This module covers what that abstraction hides:
   (applications with numbers, variable-length strings, arrays of shorts and of strings, fixed strings: `app_libs`);
 * inbound stream = valid frames + ONE malformed / extreme frame (hostile_gen: every class x packet type; signed / zero /
   non-canonical / non-numeric BodyLength, maximum-size frames, repeating-group counts, heartbeat-only bursts of > 64 KiB, garbage;
+  ONE length-consistent FIX frame of 5-17 MiB (known / unknown MsgType) and soup backlogs of 5-17 MiB of maximum-size data packets,
+  in 64 KiB segments with / without reader polls in between (`huge_cases`: beyond any plausible bound on a receive buffer);
   application payloads: unknown indicator, empty, truncated, trailing bytes, two messages in one packet, string length / array count
   negative, zero, beyond the payload, maximal)
   + valid frames, under a segmentation (whole, per frame, at the class's own zones — after the length field, before the last byte,
@@ -318,7 +320,7 @@ def est_frames(case):
     for p in case['parts']:
         if p['tok'] == 'bad':
             for q in p['b']:
-                n += q[2] if q[0] == 'rep' else (len(q[1]) // 4 + 1 if q[0] == 'x' and not p.get('delimited', True) else 1)
+                n += q[2] if q[0] in ('rep', 'repp') else (len(q[1]) // 4 + 1 if q[0] == 'x' and not p.get('delimited', True) else 1)
         else:
             n += 1
     return n
@@ -777,12 +779,15 @@ def gen_cuts(rng, spans, bad_i, zones, total, style):
         cuts = [bs] + ([bs + rng.choice(zones)] if zones else [])
     elif style == 'before-last-byte':
         cuts = [spans[bad_i][1] - 1]
+    elif style in ('seg64k', 'seg64k-burst'):
+        # what a socket does with megabytes: segments of 64 KiB from the start of the big frame / backlog on, the rest per frame
+        cuts = list(range(bs + 65536, spans[bad_i][1], 65536)) + [bs, spans[bad_i][1]] + ends
     elif style == 'bytes':
         cuts = list(range(1, total))
     else:
         cuts = [rng.randrange(1, total) for _ in range(rng.randint(1, 4))] if total > 1 else []
     cuts = sorted({c for c in cuts if 0 < c < total})
-    g = rng.random()
+    g = rng.random() if style != 'seg64k-burst' else 0.0
     if g < 0.35:
         gaps = [['t', 0]] * len(cuts)                      # back to back: the reader sees everything at its next poll
     elif g < 0.7:
@@ -968,6 +973,11 @@ def gen_cases(ctx, quick):
             for style in (['before-last-byte', rng.choice(['whole', 'zone1', 'zone2'])] if quick else
                           ['whole', 'zone1', 'zone2', 'before-last-byte', 'frame+zone', 'random']):
                 yield build_case(rng, kind, phase, bad, style)
+    # ---- megabytes: ONE length-consistent FIX frame larger than any plausible bound on a receive buffer (known / unknown MsgType),
+    # and a multi-megabyte backlog of maximum-size soup data packets, arriving in 64 KiB segments with / without a reader poll in
+    # between (a reader that bounds what it buffers meets its bound here; whatever it does then, the session must close or go on
+    # delivering the probes).  0.02 - 0.4 s each: three per quick run, the full product in the thorough tier
+    yield from huge_cases(rng, quick)
     # heartbeat-only bursts of more than 64 KiB (legal traffic): expensive (one poll per heartbeat), a few per run
     combos = KINDS if not quick else rng.sample(KINDS[::2], 2) + rng.sample(KINDS[1::2], 1)
     for kind, phase in combos:
@@ -977,6 +987,34 @@ def gen_cases(ctx, quick):
         else:
             bad = HG.soup_hb_burst(rng, kind == 'soup-client', total)
         yield build_case(rng, kind, phase, bad, rng.choice(['whole', 'random', 'per-frame']))
+
+
+def huge_case(rng, kind, phase, total, style, known=True):
+    if kind == 'fix':
+        bad = HG.fix_huge(rng, FIX_VER, fix_fields('N' if known else rng.choice(['ZQ', 'zz9', '~']), 7), 553, total, known)
+    else:
+        bad = HG.soup_backlog(rng, ord('S') if kind == 'soup-client' else ord('U'), total)
+    case = build_case(rng, kind, phase, bad, style)
+    case['heavy'] = True          # (never run with logging at DEBUG: every `on_data` would format megabytes)
+    return case
+
+
+def huge_cases(rng, quick):
+    fixk = [k for k in KINDS if k[0] == 'fix']
+    soupk = [k for k in KINDS if k[0] != 'fix']
+    if quick:
+        yield huge_case(rng, *rng.choice(fixk), rng.choice(HG.HUGE_SIZES_QUICK), rng.choice(['seg64k', 'seg64k-burst']), known=False)
+        yield huge_case(rng, *rng.choice(fixk), rng.choice(HG.HUGE_SIZES_QUICK), rng.choice(['seg64k', 'seg64k-burst', 'whole']), known=True)
+        yield huge_case(rng, *rng.choice(soupk), rng.choice(HG.HUGE_SIZES_QUICK), 'seg64k-burst')
+        return
+    for total in HG.HUGE_SIZES:
+        for kind, phase in fixk:
+            for known in (False, True):
+                for style in ('seg64k', 'seg64k-burst', 'whole', 'before-last-byte'):
+                    yield huge_case(rng, kind, phase, total, style, known)
+        for kind, phase in soupk:
+            for style in ('seg64k-burst', 'seg64k', 'whole'):
+                yield huge_case(rng, kind, phase, total, style)
 
 
 # ====================================================================== shrinking, entry points
@@ -1094,7 +1132,11 @@ def run_hostile(ctx):
                 shrunk[0] += 1
                 rep = shrink(case, v[0].split(':', 3)[-1][:30])
             ctx.violation(v[0], dict(rep, what=v))
-        if 'hang' not in res:
+        if case.get('heavy'):
+            ctx.count('corr:skipped-heavy')            # (megabytes of reader log: not kept for the model, oracle only)
+            res.pop('log', None)
+            res.get('rec', {}).pop('log', None)
+        elif 'hang' not in res:
             todo.append((case, res))
         if len(todo) >= 400:
             correspond(ctx, drv, todo)
@@ -1106,7 +1148,8 @@ def run_hostile(ctx):
     for case in gen_cases(ctx, quick):
         # a share of the (small) scenarios runs with logging enabled at DEBUG; every scenario over the dictionary with enumerations
         # runs both ways
-        small = sum((q[2] if q[0] != 'x' else len(q[1]) // 2) for p_ in case['parts'] if p_['tok'] == 'bad' for q in p_['b']) < 3000
+        small = (not case.get('heavy')
+                 and sum((q[2] if q[0] != 'x' else len(q[1]) // 2) for p_ in case['parts'] if p_['tok'] == 'bad' for q in p_['b']) < 3000)
         if small and case['cls'].startswith('fix:enum'):
             do(dict(case, debug_log=True), 'gen')
         elif small and ctx.rng.random() < 0.12:
